@@ -109,7 +109,12 @@ Aux:
 					if len(args) <= ai {
 						panic(fmt.Sprintf("Missing value for key :%s.", sym))
 					}
-					ss.Let(sym, args[ai])
+					if !lam.hasKey(string(sym)) {
+						ErrorPanic(s, depth, "Unknown keyword :%s for %s.", sym, lam)
+					}
+					if !localBound(ss, sym) { // the leftmost of duplicated keys is used
+						ss.Let(sym, args[ai])
+					}
 					ai++
 					continue
 				}
@@ -123,7 +128,8 @@ Aux:
 	if 0 < len(rest) {
 		ss.Let(restSym, rest)
 	}
-	// Next bind any unbound &key vars
+	// Next bind any unbound &optional, &rest, and &key vars with their
+	// defaults, in order so a default form can use the earlier parameters.
 	mode = reqMode
 	for _, ad := range lam.Doc.Args {
 		switch mode {
@@ -139,6 +145,10 @@ Aux:
 				mode = auxMode
 			case AmpAllowOtherKeys:
 				// ignore
+			default:
+				if !localBound(ss, Symbol(ad.Name)) {
+					ErrorPanic(s, depth, "Too few arguments to %s. No value for %s.", lam, ad.Name)
+				}
 			}
 		case optMode:
 			switch strings.ToLower(ad.Name) {
@@ -151,8 +161,8 @@ Aux:
 			case AmpAllowOtherKeys:
 				// ignore
 			default:
-				if !ss.Bound(Symbol(ad.Name)) {
-					ss.Let(Symbol(ad.Name), ad.Default)
+				if !localBound(ss, Symbol(ad.Name)) {
+					ss.Let(Symbol(ad.Name), evalDefault(ss, ad.Default, depth))
 				}
 			}
 		case restMode:
@@ -164,16 +174,18 @@ Aux:
 			case AmpAllowOtherKeys:
 				// ignore
 			default:
-				if !ss.Bound(Symbol(ad.Name)) {
-					ss.Let(Symbol(ad.Name), ad.Default)
+				if !localBound(ss, Symbol(ad.Name)) {
+					ss.Let(Symbol(ad.Name), evalDefault(ss, ad.Default, depth))
 				}
 			}
 		case keyMode:
 			asym := Symbol(ad.Name)
 			if AmpAux == asym {
 				mode = auxMode
-			} else if !ss.Bound(asym) {
-				ss.Let(asym, ad.Default)
+			} else if AmpAllowOtherKeys == asym {
+				// ignore
+			} else if !localBound(ss, asym) {
+				ss.Let(asym, evalDefault(ss, ad.Default, depth))
 			}
 		case auxMode:
 			val := ad.Default
@@ -185,6 +197,47 @@ Aux:
 		}
 	}
 	return lam.BoundCall(ss, depth)
+}
+
+// localBound returns true if the symbol is bound in the scope itself, not in
+// a parent scope or as a global.
+func localBound(s *Scope, sym Symbol) bool {
+	s.locker.Lock()
+	_, has := s.Vars[strings.ToLower(string(sym))]
+	s.locker.Unlock()
+
+	return has
+}
+
+// evalDefault evaluates the default form of a parameter in the scope of the
+// parameters before it.
+func evalDefault(s *Scope, val Object, depth int) Object {
+	if list, ok := val.(List); ok && 0 < len(list) {
+		d2 := depth + 1
+		val = s.Eval(ListToFunc(s, list, d2), d2)
+	}
+	return val
+}
+
+// hasKey returns true if name is one of the &key parameters or the lambda
+// list includes &allow-other-keys.
+func (lam *Lambda) hasKey(name string) bool {
+	inKeys := false
+	for _, ad := range lam.Doc.Args {
+		switch strings.ToLower(ad.Name) {
+		case AmpKey:
+			inKeys = true
+		case AmpAux:
+			inKeys = false
+		case AmpAllowOtherKeys:
+			return true
+		default:
+			if inKeys && strings.EqualFold(ad.Name, name) {
+				return true
+			}
+		}
+	}
+	return false
 }
 
 // BoundCall the the function with the bindings provided.
